@@ -47,6 +47,7 @@ def run(out, tier, seed):
         else:
             one.append(fwd if k % 2 == 0 else back)
     s1 = run_hist(out, one, seed, "single")
+    del ws_common.LEX_FAILS[:]      # a lexer failure on a seed is C10's to report
     out.cov["traces_validated_against_impl"] += s1["histories"]
     out.cov["evaluations"] += s1["answers_compared"]
     out.cov["distinct_nontrivial"] += s1["steps"]
